@@ -14,6 +14,8 @@ import subprocess
 import sys
 
 SRC = '/root/seed-backup'
+if any(a.startswith('--') and a not in ('--tier', '--no-suite', '--jobs') for a in sys.argv[1:]) or len(sys.argv) == 1 and not os.environ.get('SEED_EVAL_ALL'):
+    sys.exit(__doc__ + '\n(no ids given: set SEED_EVAL_ALL=1 to evaluate every id)')
 V = '/verif'
 table = json.load(open(f'{V}/tools/seed_table.json'))
 args = [a for a in sys.argv[1:] if not a.startswith('--')]
@@ -71,7 +73,7 @@ def one(sid):
         res['demo_with_patch_exit'] = d1.returncode
         res['demo_with_patch_last_line'] = ((d1.stdout + d1.stderr).strip().splitlines() or [''])[-1][:240]
         c = subprocess.run([f'{V}/check', pid, tier, '--no-evidence'], env=dict(os.environ, VERIF_REPO=wt), capture_output=True, text=True)
-        keys = [l.split('#', 1)[1].strip().split(':', 1)[0] for l in c.stdout.splitlines() if l.startswith('VIOLATION')]
+        keys = [l.split('#', 1)[1].strip().split(': ', 1)[0] for l in c.stdout.splitlines() if l.startswith('VIOLATION')]
         res['check_cmd'] = f'VERIF_REPO=<worktree with patch> ./check {pid} {tier} --no-evidence'
         res['check_exit'] = c.returncode
         res['caught'] = c.returncode == 1
